@@ -32,7 +32,13 @@ mkdir -p /tmp/demo-stash-$ID-$NAME
 # the three persistence integration tests start a server process on fixed ports and wait a fixed
 # time for it: they are run one at a time (with one retry) after the rest of the suite
 run_ns "cargo test --workspace --no-fail-fast --offline -- --skip grave_goods_and_last_will_are_presisted" >"$LOG.suite" 2>&1; a=$?
-run_ns "cargo test -p worterbuch --offline --test persistence_json" >"$LOG.persistence_json" 2>&1 || { sleep 2; run_ns "cargo test -p worterbuch --offline --test persistence_json" >"$LOG.persistence_json" 2>&1; } || a=1
+pj=1
+for try in 1 2 3 4 5; do
+    if run_ns "cargo test -p worterbuch --offline --test persistence_json" >"$LOG.persistence_json" 2>&1; then pj=0; break; fi
+    # the test waits a fixed time for the server process: under machine load it is retried
+    sleep 5
+done
+[ "$pj" -eq 0 ] || a=1
 cat "$LOG.persistence_json" >>"$LOG.suite"
 passed=$(grep -E "^test result" "$LOG.suite" | awk '{p+=$4} END {print p+0}')
 failed=$(grep -E "^test result" "$LOG.suite" | awk '{f+=$6} END {print f+0}')
